@@ -2,6 +2,7 @@
 // and the breadth-first half of C19 (work bounds on an instrumented graph type).
 #include "families.hpp"
 #include "gcase.hpp"
+#include "forked.hpp"
 #include "registry.hpp"
 
 #include "BaseGraph/algorithms/paths.hpp"
@@ -293,6 +294,20 @@ std::string checkWork(const G &g, const Model &m, const Ref &r, unsigned s, std:
         if (c > (double)(V + E))
             facts.tag("more_shortest_paths_than_V_plus_E");
     }
+    // the bounds hold whatever was searched before in this thread: the pair searches (which may stop as soon as
+    // the destination is settled) come first, on the graph class and on the instrumented type
+    if (V) {
+        unsigned t = (unsigned)((s * 7 + 3) % V);
+        bool few = cnt[t] <= 1000; // findAllGeodesics lists every shortest path: only where there are few
+        (void)algorithms::findGeodesics(g, s, t);
+        if (few)
+            (void)algorithms::findAllGeodesics(g, s, t);
+        auto cg = counting(g);
+        (void)algorithms::findGeodesics(cg, s, t);
+        if (few)
+            (void)algorithms::findAllGeodesics(cg, s, t);
+        facts.tag("pair_searches_before");
+    }
     {
         auto cg = counting(g);
         cg.cap = V;
@@ -329,8 +344,144 @@ std::string checkWork(const G &g, const Model &m, const Ref &r, unsigned s, std:
     return "";
 }
 
+// Searches keep no memory of earlier ones: the same search gives the same (already validated) answer after d-1 other
+// searches that never reach its source.  d is a word-size boundary (2^8, 2^16) of a call counter.
+template <class G>
+std::string checkAfterManyCalls(const G &g, const Model &m, const Ref &r, long long d, bool work, std::string &observer, StepFacts &facts) {
+    size_t V = m.n, E = 0;
+    for (unsigned v = 0; v < V; ++v)
+        E += g.getOutNeighbours(v).size();
+    for (unsigned s = 0; s < V; ++s) {
+        // a source that reaches something, and another vertex whose searches never reach that source
+        size_t reached = 0;
+        for (unsigned v = 0; v < V; ++v)
+            reached += v != s && r.dist[s][v] != UNREACH;
+        if (!reached)
+            continue;
+        long long other = -1;
+        for (unsigned u = 0; u < V && other < 0; ++u)
+            if (u != s && r.dist[u][s] == UNREACH)
+                other = u;
+        if (other < 0)
+            continue;
+        auto P0 = algorithms::findVertexPredecessors(g, s);
+        auto A0 = algorithms::findAllVertexPredecessors(g, s);
+        auto co = counting(g);
+        for (long long i = 1; i < d; ++i) {
+            (void)algorithms::findVertexPredecessors(g, (VertexIndex)other);
+            (void)algorithms::findAllVertexPredecessors(g, (VertexIndex)other);
+            if (work) {
+                (void)algorithms::findVertexPredecessors(co, (VertexIndex)other);
+                (void)algorithms::findAllVertexPredecessors(co, (VertexIndex)other);
+            }
+        }
+        auto P1 = algorithms::findVertexPredecessors(g, s);
+        auto A1 = algorithms::findAllVertexPredecessors(g, s);
+        facts.tag("many_calls_between_" + std::to_string(d));
+        if (P0.first != P1.first || P0.second != P1.second || A0.first != A1.first || A0.second != A1.second) {
+            observer = "after-many-calls";
+            return "a predecessor search from " + std::to_string(s) + " answers differently after " + std::to_string(d - 1) + " searches from " + std::to_string(other) + " (which never reach " +
+                   std::to_string(s) + ")";
+        }
+        if (work) {
+            auto c1 = counting(g), c2 = counting(g);
+            c1.cap = V;
+            c2.cap = V + E;
+            try {
+                (void)algorithms::findVertexPredecessors(c1, s);
+                (void)algorithms::findAllVertexPredecessors(c2, s);
+            } catch (const WorkExceeded &w) {
+                observer = "scans-after-many-calls";
+                return "a predecessor search from " + std::to_string(s) + " exceeds its scan bound after " + std::to_string(d - 1) + " earlier searches";
+            }
+        }
+        return "";
+    }
+    return "";
+}
+
+// `fresh 1`: the case runs in a forked child of a process that never searched, on graphs of three classes built from the same
+// edge list (the class of the case, the one of the other directedness, the one with / without labels) in a generated order: the
+// searches of one class must not depend on what another class searched before in the same thread.
+template <class X>
+std::string freshOne(const Case &c, const char *what, std::string &observer, StepFacts &facts) {
+    typedef GT<X> T;
+    GSpec s = parseGSpec(c, T::directed);
+    X g(0);
+    Model m;
+    buildGraph(s, "int", g, m);
+    Ref ref = makeRef(m);
+    long long src = c.geti("source", -1);
+    for (unsigned sv = 0; sv < m.n; ++sv) {
+        if (src >= 0 && sv != (unsigned)(src % (long long)m.n))
+            continue;
+        std::string r = checkSource(g, m, ref, sv, observer, facts);
+        if (!r.empty())
+            return std::string("on the ") + what + ": " + r;
+    }
+    return "";
+}
+template <class G>
+struct Siblings;
+template <class L>
+struct Siblings<LabeledDirectedGraph<L>> {
+    typedef LabeledUndirectedGraph<L> OtherDir;
+    typedef LabeledDirectedGraph<typename std::conditional<std::is_same<L, NoLabel>::value, int, NoLabel>::type> OtherLabel;
+};
+template <class L>
+struct Siblings<LabeledUndirectedGraph<L>> {
+    typedef LabeledDirectedGraph<L> OtherDir;
+    typedef LabeledUndirectedGraph<typename std::conditional<std::is_same<L, NoLabel>::value, int, NoLabel>::type> OtherLabel;
+};
+template <class G>
+void runFresh(const Case &c, verif_result *out) {
+    std::string cls = c.get("class") + ":" + c.get("label", "none");
+    StepFacts facts;
+    std::string observer, r;
+    static const int perms[6][3] = {{0, 1, 2}, {0, 2, 1}, {1, 0, 2}, {1, 2, 0}, {2, 0, 1}, {2, 1, 0}};
+    const int *order = perms[c.geti("fresh_order", 0) % 6];
+    g_digest = 1469598103934665603ULL;
+    try {
+        for (int k = 0; k < 3 && r.empty(); ++k) {
+            if (order[k] == 0)
+                r = freshOne<G>(c, "class of the case", observer, facts);
+            else if (order[k] == 1)
+                r = freshOne<typename Siblings<G>::OtherDir>(c, "class of the other directedness", observer, facts);
+            else
+                r = freshOne<typename Siblings<G>::OtherLabel>(c, "class with the other label type", observer, facts);
+            if (!r.empty())
+                r = "searched as number " + std::to_string(k + 1) + " of three classes in a fresh process, " + r;
+        }
+    } catch (const std::exception &ex) {
+        observer = "exception";
+        r = std::string("unexpected exception ") + typeid(ex).name() + ": " + ex.what();
+    }
+    facts.tag("fresh_process_three_classes");
+    if (!r.empty()) {
+        fillResult(out, 1, false, 0, cls + "|fresh|" + observer, joinTags(facts), "property C11 class " + cls + " (fresh): " + r);
+        return;
+    }
+    fillResult(out, 0, facts.tags.count("several_shortest_paths") || facts.tags.count("cycle_through_source") || facts.tags.count("unreachable"), g_digest, "", joinTags(facts), "");
+}
+
+template <class G>
+void runInner(const Case &c, verif_result *out);
+
 template <class G>
 void run(const Case &c, verif_result *out) {
+    if (c.geti("fresh", 0) == 0) {
+        runInner<G>(c, out);
+        return;
+    }
+    std::string how;
+    if (!runForked([&](verif_result *o) { runFresh<G>(c, o); }, out, how)) {
+        std::string cls = c.get("class") + ":" + c.get("label", "none");
+        fillResult(out, 1, false, 0, cls + "|fresh|child-died", "", "property C11 class " + cls + ": the process running the case ended abnormally (" + how + ")");
+    }
+}
+
+template <class G>
+void runInner(const Case &c, verif_result *out) {
     typedef GT<G> T;
     std::string prop = c.get("prop", "C11");
     std::string cls = c.get("class") + ":" + c.get("label", "none");
@@ -372,6 +523,8 @@ void run(const Case &c, verif_result *out) {
                 if (!r.empty())
                     break;
             }
+            if (r.empty() && c.geti("wrap_calls", 0) > 0)
+                r = checkAfterManyCalls(g, m, ref, c.geti("wrap_calls", 0), prop == "C19", observer, facts);
         }
     } catch (const WorkExceeded &w) {
         observer = "scans";
